@@ -170,6 +170,16 @@ def object_menu(uid, idx):
         add(op + "/no-pad", dict({"op": op, "uid": uid, "params": {"alg": "RSA", "hash": "SHA_256"}, "data": blk}, **x))
         add(op + "/no-alg", dict({"op": op, "uid": uid, "params": {"hash": "SHA_256", "pad": "PKCS1v15"}, "data": blk}, **x))
         add(op + "/empty-data", dict({"op": op, "uid": uid, "params": sbase, "data": ""}, **x))
+    for dl in (0, 1, 20, 32, 64):
+        add("SignatureVerify/digested-only-%d" % dl, {"op": "SignatureVerify", "uid": uid, "params": sbase,
+                                                      "data": None, "digested": "5c" * dl, "sig": "ab" * 128})
+        add("SignatureVerify/digested-and-data-%d" % dl, {"op": "SignatureVerify", "uid": uid, "params": sbase,
+                                                          "data": blk, "digested": "5c" * dl, "sig": "ab" * 128})
+    add("SignatureVerify/no-data-no-digest", {"op": "SignatureVerify", "uid": uid, "params": sbase, "data": None,
+                                              "sig": "ab" * 128})
+    add("SignatureVerify/no-signature", {"op": "SignatureVerify", "uid": uid, "params": sbase, "data": blk, "sig": None})
+    add("SignatureVerify/stream-fields", {"op": "SignatureVerify", "uid": uid, "params": sbase, "data": blk,
+                                          "sig": "ab" * 128, "corr": "0102", "init": True, "final": False})
     add("SignatureVerify/empty-sig", {"op": "SignatureVerify", "uid": uid, "params": sbase, "data": blk, "sig": ""})
     add("SignatureVerify/short-sig", {"op": "SignatureVerify", "uid": uid, "params": sbase, "data": blk, "sig": "00"})
     add("MAC/no-params", {"op": "MAC", "uid": uid, "data": blk})
